@@ -261,3 +261,40 @@ pub fn resubmit_in_conflict() {
     assert!(!a.m.has_staging(), "submitting the committed document again staged something");
     sym::reach(1);
 }
+
+/// An observer that read an array earlier receives several later versions in one synchronisation (its cache holds an
+/// ancestor two or more revisions above). Cache capacities symbolic 1..3. params: [k orders, versions after the first read]
+pub fn observer_chain() {
+    let k = sym::param(0) as usize;
+    let n = sym::param(1) as usize;
+    let cap = sym::range(1, 3) as usize;
+    sym::set_env("MELDA_ARRAYDESCRIPTORS_CACHE_CAP", cap);
+    sym::set_env("MELDA_DATA_CACHE_CAP", cap);
+    let w = Rep::new();
+    let mut o = Rep::new();
+    let mk = |o: &[&str]| {
+        let mut d = Map::new();
+        d.insert("items♭".to_string(), elems(o));
+        let rest: Vec<&str> = ["a", "b", "c", "d"].iter().filter(|x| !o.contains(x)).cloned().collect();
+        d.insert("more♭".to_string(), elems(&rest));
+        d
+    };
+    w.m.update(mk(ORDERS[11])).unwrap();
+    w.m.commit(None).unwrap();
+    w.m.update(mk(ORDERS[sym::choose(k)])).unwrap();
+    w.m.commit(None).unwrap();
+    o.pull(&w);
+    let _ = o.m.read(None).expect("observer read");
+    let mut last = Map::new();
+    for _ in 0..n {
+        last = mk(ORDERS[sym::choose(k)]);
+        w.m.update(last.clone()).unwrap();
+        w.m.commit(None).unwrap();
+    }
+    o.pull(&w);
+    let r = o.m.read(None).expect("observer read after sync");
+    assert!(r == w.m.read(None).unwrap(), "a warm observer reconstructs a different array than the writer");
+    assert!(reads_back(&r, &last), "a warm observer does not reconstruct the last submitted array");
+    assert!(o.reopen().read(None).unwrap() == r, "a cold replica on the same storage reads a different document");
+    sym::reach(1);
+}
